@@ -34,6 +34,8 @@ class Rule:
         """key: position-independent identity of the construct (function + normalised text)."""
         full = "%s|%s" % (self.id, key)
         self.instances.append({"site": site, "verdict": "FAIL", "detail": msg})
+        if any(f["key"] == full for f in self.findings):
+            return
         self.findings.append({"rule": self.id, "key": full, "site": site, "msg": msg, "detail": detail})
 
     def pending(self, site, detail=""):
